@@ -306,6 +306,48 @@ pub fn check(sc: &Scenario, env: &mut Env) -> Result<Outcome, HarnessError> {
                         skipped,
                     );
                 }
+                // "... and only they are skipped", seen from below the stack: a directory that the
+                // glob walk itself *keeps* (feeds as a match, not as residue) is not a discarded
+                // tree, so every entry in it is produced to the filters downstream — as a match or
+                // as residue, which the tap above the glob walk sees either way.
+                // (judged on the reference execution, where no layer above discards anything)
+                if w.taps {
+                    let uv = View::of(&u.log, wi, &sc.cwd);
+                    let fed0: std::collections::BTreeSet<&str> =
+                        uv.taps.iter().filter(|t| t.pos == 0).filter_map(|t| t.wp.as_deref()).collect();
+                    let mut unfed: Vec<String> = Vec::new();
+                    for t in uv.taps.iter().filter(|t| t.pos == 0 && t.class == 'F') {
+                        let Some(d) = t.wp.as_deref()
+                        else {
+                            continue;
+                        };
+                        if !visits.iter().any(|v| v.path == d && v.is_dir) || max.map_or(false, |m| depth_of_rel(d) >= m) {
+                            continue;
+                        }
+                        for k in visits.iter().filter(|v| parent(&v.path) == d && v.path != d) {
+                            if !fed0.contains(k.path.as_str()) {
+                                unfed.push(format!("unfed:{}", k.path));
+                            }
+                        }
+                        out.probe("glob:kept-directory-must-be-listed");
+                    }
+                    // (a walker dropped or out of budget before its end proves nothing)
+                    let ended = u.log.iter().any(|e| matches!(e, crate::exec::Ev::End { w } if *w == wi));
+                    if !unfed.is_empty() && ended {
+                        unfed.sort();
+                        unfed.dedup();
+                        out.violate(
+                            "C13",
+                            "skip",
+                            wi,
+                            format!(
+                                "glob {:?}: the glob walk kept these directories (fed them as matches) yet never produced their entries downstream, although nothing discarded them: {:?}",
+                                w.source, unfed
+                            ),
+                            unfed,
+                        );
+                    }
+                }
             }
         }
         if ex.nontrivial {
